@@ -588,3 +588,17 @@ Proof.
   intros gmatch view fuel reqs st l Hs H. unfold follow_links_opt in H. rewrite Hs in H.
   inversion H as [Hf]. split; [eapply finish_covers; eauto|eapply finish_subset; eauto].
 Qed.
+
+(* the glue's fuel is the proved bound *)
+Lemma length_flat_map_const {A B} (f : A -> list B) (l : list A) k :
+  (forall a, length (f a) = k) -> length (flat_map f l) = (length l * k)%nat.
+Proof.
+  intros H. induction l as [|a l IH]; [reflexivity|]. cbn [flat_map length]. rewrite app_length, H, IH. reflexivity.
+Qed.
+
+Lemma fuel_bound_fast_eq_proof view reqs : fuel_bound_fast view reqs = fuel_bound view reqs.
+Proof.
+  unfold fuel_bound_fast, fuel_bound, cand_keys. rewrite app_length, map_length.
+  rewrite (length_flat_map_const _ _ (length (comp_pool view reqs))); [reflexivity|].
+  intros d. apply map_length.
+Qed.
